@@ -7,3 +7,4 @@ import SphericalVerif.Props.Sched
 #print axioms Sched.private_calls_noninterfering
 #print axioms Sched.private_call_avoids_default
 #print axioms Sched.tables_never_written
+#print axioms Sched.interleaveN_indep
